@@ -338,11 +338,46 @@ def t_opt_kill(facts, res, tier):
     res.exhaustive = True
 
 
+def _assigns_on_all_paths(node, var):
+    """Does every path through this block / statement assign `var`?  (structural: a top-level assignment, or an if/else chain or match
+    whose every branch does; loops and `if` without else do not count)"""
+    if not isinstance(node, dict):
+        return False
+    k = node.get("k")
+    if k == "block":
+        return any(_assigns_on_all_paths(s0, var) for s0 in node.get("stmts") or [])
+    if k == "assign":
+        return expr_text(node["l"]).strip() == var
+    if k == "if":
+        if node.get("else") is None:
+            return False
+        return ((_assigns_on_all_paths(node["then"], var) or body_diverges(node["then"]))
+                and (_assigns_on_all_paths(node["else"], var) or body_diverges(node["else"])))
+    if k == "match":
+        return all(_assigns_on_all_paths(a["body"], var) or body_diverges(a["body"]) for a in node["arms"])
+    if k in ("try", "paren"):
+        return _assigns_on_all_paths(node["e"], var)
+    return False
+
+
+def body_diverges(n):
+    t = expr_text(n).replace(" ", "")
+    return t.startswith("unreachable!") or t.startswith("{unreachable!") or t.startswith("return") or t.startswith("{return") or t.startswith("panic!")
+
+
 @rule("T-OPT-BARRIER", floor=6,
       text="in optimize(), whenever the scan moves past a Label or an Inline (opaque assembler text) line, all register knowledge is reset before it is used again (in the arm that skips the line, or right after the skip loop); Comment and Dummy lines change nothing")
 def t_opt_barrier(facts, res, tier):
     fn, binders, kill = opt_structure(facts)
     regs = ("accumulator", "x_register", "y_register")
+    flagsvar = None
+    for arm0 in kill["arms"]:
+        if "LDA" in pat_text(arm0["pat"]):
+            for n0 in walk(arm0["body"]):
+                if n0.get("k") == "assign" and expr_text(n0["r"]).startswith("FlagsState::"):
+                    flagsvar = expr_text(n0["l"])
+    if flagsvar is None:
+        raise AnchorMissing("optimize(): flags knowledge variable not found")
     # all skip loops: loop { match &first|&second { None => return, Some(Instruction) => break, <other arms> } }
     found = []
     def want(n):
@@ -458,6 +493,13 @@ def t_opt_barrier(facts, res, tier):
             body_t = expr_text(a["body"]) if a is not None else ""
             in_arm = all(("%s=None" % v) in body_t for v in regs)
             res.inst(key, True, {"cursor": which, "role": role, "variant": variant, "reset_in_arm": in_arm, "reset_after_loop": after, "nothing_known_yet": fresh})
+            # the flag knowledge is register knowledge too: where the arm resets the registers it also decides `flags` on every path
+            if in_arm and a is not None:
+                fkey = key + ":flags"
+                ok_f = _assigns_on_all_paths(a["body"], flagsvar)
+                res.inst(fkey, True, {"flags_decided_on_every_path": ok_f})
+                if not ok_f:
+                    res.fail(fkey, facts.where(fn, a["body"]), "optimize(): when `%s` moves past an AsmLine::%s (%s) the registers are reset but `%s` is left as it was on some path: a jump also reaches that label, and `STA v / LDA v` after it is folded on the strength of the fall-through path's flags" % (which, variant, role, flagsvar))
             if not (in_arm or after or fresh):
                 res.fail(key, facts.where(fn, lp), "optimize(): when `%s` moves past an AsmLine::%s (%s) the known register contents are kept: code after the %s is optimised as if it could only be reached by falling through" % (
                     which, variant, role, "label" if variant == "Label" else "opaque assembler line"))
